@@ -425,6 +425,18 @@ QUICK_SETS = {
 SLOW = set("disp_access_concatenation disp_apply_list".split())
 
 
+def _kf_witnesses():
+    import json, os
+    try:
+        kf = json.load(open(os.path.join(os.path.dirname(os.path.abspath(__file__)), "known_findings.json")))
+    except Exception:
+        return {}
+    return {w: f["property"] for f in kf.get("findings", []) for w in f.get("witness_harnesses", [])}
+
+
+_KF_WITNESS = _kf_witnesses()
+
+
 def build_properties(tsv):
     rows = read_templates(tsv)
     props = dict(PROPERTIES_STATIC)
@@ -448,7 +460,9 @@ def build_properties(tsv):
             seen[h["name"]] = dict(h)
         if seen:
             v = dict(v)
-            v["harnesses"] = list(seen.values())
+            # a recorded finding's witness harness isolates the finding's input class; it belongs to the finding's own
+            # property only (for the others that class is outside the main harnesses, as for every recorded finding)
+            v["harnesses"] = [h for h in seen.values() if _KF_WITNESS.get(h["name"], k) == k]
             qs = QUICK_SETS.get(k)
             for h in v["harnesses"]:
                 if qs is not None:
